@@ -22,6 +22,7 @@ type Chan struct {
 }
 
 func (it *Interp) goStart(fr *frame, instr *ssa.Go, fn Value, args []Value) {
+	it.impure("concurrency")
 	panic(unsupported("go statement"))
 }
 
@@ -31,6 +32,7 @@ func (it *Interp) makeChan(fr *frame, size Value) Value {
 }
 
 func (it *Interp) chanSend(fr *frame, chv, v Value) {
+	it.impure("concurrency")
 	ch := chv.(*Chan)
 	if ch == nil {
 		if !it.blockOn(fr, "send on nil chan") {
@@ -54,6 +56,7 @@ func (it *Interp) chanSend(fr *frame, chv, v Value) {
 }
 
 func (it *Interp) chanRecv(fr *frame, chv Value, commaOk bool, elem types.Type) Value {
+	it.impure("concurrency")
 	ch := chv.(*Chan)
 	for {
 		if ch != nil && len(ch.buf) > 0 {
@@ -79,6 +82,7 @@ func (it *Interp) chanRecv(fr *frame, chv Value, commaOk bool, elem types.Type) 
 }
 
 func (it *Interp) chanClose(fr *frame, chv Value) {
+	it.impure("concurrency")
 	ch := chv.(*Chan)
 	if ch == nil {
 		panic(targetPanic{implicit: "close of nil channel"})
